@@ -1,6 +1,8 @@
 import Rawr.Abs
 import Rawr.Gen
 import Rawr.Model.CountMoves
+import Rawr.Model.Search
+import Rawr.Model.UciMove
 /-! Line-protocol driver: one request per line in, one canonical line out.
 Model requests have the same names as the harness (`hx`) requests; specification (oracle) requests
 start with `s`; generator requests start with `g`. -/
@@ -102,6 +104,70 @@ def handleSpec (cmd : String) (p : Position) (rest : List String) : String :=
   | "sind", _ => s!"{showB (ValidPos p)} {showB (Spec.EpConsistent a)} {showB (Spec.LegalMaterial a)}"
   | _, _ => "bad-op"
 
+
+def parseListBB (s : String) : List BB :=
+  if s == "-" || s.isEmpty then [] else (s.splitOn ",").map bb!
+
+def int! (s : String) : Int := s.toInt?.getD 0
+
+/-- "mb;slotkey,hash,from,to,promo,score,depth,flag;..." -/
+def buildTT (spec : String) : Option (Table TTEntry) :=
+  match spec.splitOn ";" with
+  | [] => none
+  | mb :: es =>
+    es.foldl (fun ot e =>
+      match ot, e.splitOn "," with
+      | some t, [k, h, f, to, pr, sc, d, fl] =>
+        t.add (nat! k) ⟨bb! h, ⟨nat! f, nat! to, nat! pr⟩, int! sc, int! d, nat! fl⟩
+      | ot, _ => ot) (some (Table.new (nat! mb) Gen.ttEntrySize))
+
+def ttImage (t : Table TTEntry) : String :=
+  let ents := (List.range t.entries.size).filterMap fun i =>
+    let e := t.entries[i]!
+    if e = default then none
+    else some s!";{i},{e.hash.toNat},{e.mv.src},{e.mv.dst},{e.mv.promo},{e.score},{e.depth},{e.flag}"
+  toString t.entries.size ++ String.join ents
+
+def showInfo (p : Position) (i : InfoRec) : String :=
+  let pv := ",".intercalate (i.pv.map fun m => s!"{showMv m}/{toUci p m}")
+  let hf : Int := match i.hashfull with | some h => h | none => -1
+  s!"d={i.depth} sd={i.seldepth} sc={i.score} n={i.nodes} hf={hf} pv={pv}"
+
+def handleSearch (cmd : String) (p : Position) (r : List String) : String :=
+  match cmd, r with
+  | "eval", _ => toString (eval p)
+  | "uci", r => (match parseMv r with | some (m, _) => toUci p m | none => "bad-op")
+  | "qs", [a, b] =>
+    (match qsearch 80 p ⟨0, 0⟩ (int! a) (int! b) 0 with
+     | some (s, q) => s!"{s} {q.nodes} {q.seldepth}" | none => "PANIC")
+  | "nm", [hist, tt, a, b, ply, d, cn] =>
+    (match buildTT tt with
+     | none => "PANIC"
+     | some t =>
+       let h := (parseListBB hist).reverse
+       match negamax .infinite 400 p ⟨h, t, 0, 0, 0, none, 0⟩ (int! a) (int! b) (int! ply) (int! d) (b01 cn) with
+       | none => "PANIC"
+       | some (s, st) =>
+         let bm := match st.best with | some m => showMv m | none => "-"
+         s!"{s} n={st.nodes} sd={st.seldepth} bm={bm} hist={showB (st.hist == h)} tt={ttImage st.tt}")
+  | "root", hist :: tt :: kind :: a :: _rest =>
+    (match buildTT tt with
+     | none => "PANIC"
+     | some t =>
+       let h := (parseListBB hist).reverse
+       let lim := match kind with
+         | "depth" => Limit.depth (int! a)
+         | "nodes" => Limit.nodes (nat! a)
+         | "stopat" => Limit.clock (fun k => k ≥ nat! a)
+         | _ => Limit.infinite
+       match root lim 600 p h t with
+       | none => "PANIC"
+       | some res =>
+         let bm := match res.best with | some m => s!"{showMv m}/{toUci p m}" | none => "ERR"
+         let infos := if res.infos.isEmpty then "-" else "|".intercalate (res.infos.map (showInfo p))
+         s!"{bm} hist={showB (res.hist == h)} pos=1 infos={infos} tt={ttImage res.tt}")
+  | _, _ => "bad-op"
+
 def handleSlide (t : List String) : String :=
   match t with
   | ["slide", "b", s, o] => toString (bishopMoves (nat! s) (bb! o)).toNat
@@ -149,7 +215,8 @@ def handle (line : String) : List String :=
       match parsePos rest with
       | none => ["bad-op"]
       | some (p, r) =>
-        if cmd.startsWith "s" then [handleSpec cmd p r] else [handleModel cmd p r]
+        if ["eval", "uci", "qs", "nm", "root"].contains cmd then [handleSearch cmd p r]
+        else if cmd.startsWith "s" then [handleSpec cmd p r] else [handleModel cmd p r]
 
 partial def loop (h : IO.FS.Stream) (out : IO.FS.Stream) : IO Unit := do
   let line ← h.getLine
